@@ -26,9 +26,9 @@ func init() {
 		h.Prepare()
 		switch op {
 		case "addout":
-			h.AddOut(c11Message(mid, 2000))
+			h.AddOut(c11Message(mid, c11SizeFor(mid)))
 		case "inbound":
-			h.ProcessInbound(c11Message(mid, 2000))
+			h.ProcessInbound(c11Message(mid, c11SizeFor(mid)))
 		case "setsent":
 			h.SetSent(mid, false)
 		case "setunread":
@@ -40,6 +40,15 @@ func init() {
 			}
 		}
 	}
+}
+
+// c11SizeFor: the body size of the message the strace child stores under a MID (a MID ending in BIG:
+// a message well above 64 KiB, as one with an attachment is)
+func c11SizeFor(mid string) int {
+	if strings.HasSuffix(mid, "BIG") {
+		return 100000
+	}
+	return 2000
 }
 
 func c11Message(mid string, bodyLen int) *fbb.Message {
@@ -171,7 +180,7 @@ func modelCalls(s string) []string {
 
 func runC11(ctx *Ctx) error {
 	r, res := ctx.Rng, ctx.Res
-	res.Rule = "(a) system-call correspondence: AddOut, ProcessInbound, SetUnread and SetSent are each executed by the real code in a child process under strace; the calls on files below the mailbox (open for writing, write, close, rename, unlink) must equal the model's call sequence. (b) crash points: for stores of messages of several sizes into mailboxes with existing messages (including an older copy under the same MID), every k in 0..4 and every j (quick: 24 prefix lengths incl. 0, 1, len-1, len; thorough: every byte) and both crash points of SetSent: the model's crash state is materialised in a temporary directory and the REAL recovery code runs on it (fresh DirHandler: Prepare, Inbox/Outbox/Sent listings, GetInboundAnswer, GetOutbound). Oracle: every folder loads without error, previously stored messages are byte-identical, an outbound message is in exactly one of outbox/sent, 'already received' only with a complete copy in the inbox (also for MIDs that differ from a stored one by the mailbox's file extension, and after a store that failed at its first system call: MIDs of 250..5000 bytes, a symlink loop in the message's place). Non-trivial: crash inside the write or between write and rename; distinct by (operation, size, k, j)."
+	res.Rule = "(a) system-call correspondence: AddOut, ProcessInbound, SetUnread and SetSent (messages of 2 KB and of 100 KB) are each executed by the real code in a child process under strace; the calls on files below the mailbox (open for writing, write, close, rename, unlink) must equal the model's call sequence. (b) crash points: for stores of messages of several sizes into mailboxes with existing messages (including an older copy under the same MID), every k in 0..4 and every j (quick: 24 prefix lengths incl. 0, 1, len-1, len; thorough: every byte) and both crash points of SetSent: the model's crash state is materialised in a temporary directory and the REAL recovery code runs on it (fresh DirHandler: Prepare, Inbox/Outbox/Sent listings, GetInboundAnswer, GetOutbound). Oracle: every folder loads without error, previously stored messages are byte-identical, an outbound message is in exactly one of outbox/sent, 'already received' only with a complete copy in the inbox (also for MIDs that differ from a stored one by the mailbox's file extension, and after a store that failed at its first system call: MIDs of 250..5000 bytes, a symlink loop in the message's place). Non-trivial: crash inside the write or between write and rename; distinct by (operation, size, k, j)."
 	root, err := os.MkdirTemp("", "verif-c11-")
 	if err != nil {
 		return err
@@ -181,15 +190,18 @@ func runC11(ctx *Ctx) error {
 	var mlines []string
 	var straced [][]string
 	var descr []string
-	for i, opv := range []string{"addout", "inbound", "setunread", "setsent", "addout-again", "inbound-again"} {
+	for i, opv := range []string{"addout", "inbound", "setunread", "setsent", "addout-again", "inbound-again", "addout-big", "inbound-big", "setunread-big"} {
 		dir := filepath.Join(root, "st"+fmt.Sprint(i))
 		mid := "MSG" + fmt.Sprint(i)
+		if strings.HasSuffix(opv, "-big") {
+			mid += "BIG" // the same operations on a message of about 100 KB: the same call sequence
+		}
 		h := mailbox.NewDirHandler(dir, false)
 		h.Prepare()
-		m := c11Message(mid, 2000)
+		m := c11Message(mid, c11SizeFor(mid))
 		var fop string
-		op := strings.TrimSuffix(opv, "-again")
-		if op != opv {
+		op := strings.TrimSuffix(strings.TrimSuffix(opv, "-again"), "-big")
+		if strings.HasSuffix(opv, "-again") {
 			// an older copy under the same MID is already stored: the operation must replace it
 			// atomically (same call sequence as a first store: no unlink of the old copy first)
 			if op == "addout" {
@@ -207,7 +219,7 @@ func runC11(ctx *Ctx) error {
 			b, _ := m.Bytes()
 			fop = fmt.Sprintf("store i0 %s %s", ts(mid+".b2f"), tx(b))
 		case "setunread":
-			h.ProcessInbound(c11Message(mid, 2000))
+			h.ProcessInbound(c11Message(mid, c11SizeFor(mid)))
 			// the rewritten file: the message as loaded, without X-Unread (X-FilePath is kept in the file)
 			msgs, _ := h.Inbox()
 			msgs[0].Header.Del("X-Unread")
